@@ -12,6 +12,7 @@ func init() {
 	register(&Property{
 		ID: "C16",
 		Explanation: "Decides in csv.go / csv_options.go: R16.1 every csv.Reader the codec creates or is handed passes through o.applyToReader, and every csv.Writer through o.applyToWriter, before it is used — the necessary condition of 'all kinds agree under non-default options'; the option copier copies each conditional field exactly when it is non-zero and the boolean fields always; " +
+			"Round 12: R16.4 deferred functions assign the error result only while nil, later outcomes never replace a failure, and reflect mutators behind pipeCSV run only after its error was seen nil. " +
 			"R16.2 reflect slice typestate: SetCap is applied only after SetLen(0) (Len <= n <= Cap), and on every successful parse the record-table destination is overwritten (SetLen + Copy), never left stale; R16.3 a record obtained from a reader is retained only as a copy (record reuse cannot alias delivered records); " +
 			"R16.4 parser and writer errors are returned, only io.EOF is absorbed, the piped path ends with Flush then Error, and the goroutines of the WriterTo branch close their pipe ends on every exit and their errors are waited for; R16.5 nil/typed-nil/unsupported sources and destinations yield an error (reflect validity typestate as in C15). " +
 			"R16.1 also: fields of csvOpts are written only by option setters at construction or in a per-call copy. " +
